@@ -6,6 +6,7 @@ import json, os, subprocess, sys, concurrent.futures, time
 root = "/verif/seeded"
 sel = sys.argv[1:]
 ids = sorted(d for d in os.listdir(root) if os.path.isdir(os.path.join(root, d)) and (not sel or any(d.startswith(s) for s in sel)))
+ids = [i for i in ids if not json.load(open(f"{root}/{i}/meta.json")).get("superseded_by_fix")]  # no longer faults on the repaired tree
 def one(i):
     meta = json.load(open(f"{root}/{i}/meta.json"))
     checks = [meta["property"]] + meta.get("also_checks", [])
